@@ -13,6 +13,11 @@ def sq3(x, exp=3):
     return x ** exp
 
 
+def own_target(x, exp=9):
+    """a target of its own which a worker created INSIDE a context is given by its creator: the context's target runs, not this one"""
+    return ('own', x, exp)
+
+
 def slow(x, exp=3):
     time.sleep(0.05)
     return x ** exp
